@@ -8,6 +8,7 @@ package main
 import (
 	"go/ast"
 	"go/token"
+	"strconv"
 	"strings"
 )
 
@@ -87,6 +88,60 @@ func init() {
 
 		// isLocalhost names
 		emitLitList(sp, "smtp_localhost_names", "isLocalhost")
+		// isLocalhost as the exact predicate: the body must be a single "return <param> == "lit" || ... "; any other
+		// shape (a further statement, a call such as strings.HasPrefix, a comparison other than ==) is untranslatable and
+		// emitted as "everything is local", which breaks the obligation C07_source_is_localhost
+		emit("Fixpoint gen_bytes_eqb (a b : list N) : bool :=\n  match a, b with\n  | [], [] => true\n  | x :: a', y :: b' => (x =? y) && gen_bytes_eqb a' b'\n  | _, _ => false\n  end.\n")
+		locOK := false
+		var locLits []string
+		if fn, ok := sp.funcs["isLocalhost"]; ok && fn.Body != nil && len(fn.Body.List) == 1 && fn.Type.Params != nil &&
+			len(fn.Type.Params.List) == 1 && len(fn.Type.Params.List[0].Names) == 1 {
+			param := fn.Type.Params.List[0].Names[0].Name
+			if rs, ok := fn.Body.List[0].(*ast.ReturnStmt); ok && len(rs.Results) == 1 {
+				locOK = true
+				var walk func(e ast.Expr)
+				walk = func(e ast.Expr) {
+					switch x := e.(type) {
+					case *ast.ParenExpr:
+						walk(x.X)
+					case *ast.BinaryExpr:
+						switch x.Op {
+						case token.LOR:
+							walk(x.X)
+							walk(x.Y)
+						case token.EQL:
+							id, ok1 := x.X.(*ast.Ident)
+							lit, ok2 := x.Y.(*ast.BasicLit)
+							if ok1 && ok2 && id.Name == param && lit.Kind == token.STRING {
+								if v, err := strconv.Unquote(lit.Value); err == nil {
+									locLits = append(locLits, v)
+									return
+								}
+							}
+							locOK = false
+						default:
+							locOK = false
+						}
+					default:
+						locOK = false
+					}
+				}
+				walk(rs.Results[0])
+				if locOK && len(locLits) > 0 {
+					terms := make([]string, len(locLits))
+					for i, l := range locLits {
+						terms[i] = "gen_bytes_eqb n " + coqBytes(l)
+					}
+					emit("(* %s: isLocalhost: %s *)\nDefinition is_localhost (n : list N) : bool :=\n  %s.\n", sp.pos(fn), sp.src(rs), strings.Join(terms, " ||\n  "))
+				} else {
+					locOK = false
+				}
+			}
+		}
+		if !locOK {
+			untranslatable = append(untranslatable, "is_localhost")
+			emit("(* UNTRANSLATABLE: smtp/auth.go isLocalhost is not a disjunction of equalities with string literals *)\nDefinition is_localhost (n : list N) : bool := true.\n")
+		}
 
 		// NewClient: default tls.Config literal
 		srvName, verifies, foundCfg := false, true, false
